@@ -99,7 +99,22 @@ func c03Run(c *mon.Ctx, unit int) {
 		s := gen.Graph(r, 6)
 		s.OptKeys = r.Chance(1, 5)
 		sp := specOf(s, model.Style{})
+		if k%5 == 3 {
+			// the types reach the root only through the types that name them
+			sp.NestedReg = true
+			c.Count("graphs registered through their types (root receives only the types it names)", 1)
+		}
 		built := buildSchema(sp)
+		if !built.ok && sp.NestedReg {
+			// the same graph with every type added to the root as well must be refused too
+			flat := sp
+			flat.NestedReg = false
+			if fb := buildSchema(flat); fb.ok {
+				c.Violate("nested", c03Case{sp, ""}, "accept (as with all types added to the root)", built.check.String(),
+					"Check refuses a graph whose types reach the root through the types naming them, and accepts it when they are added to the root too")
+				continue
+			}
+		}
 		if !built.ok {
 			c.Count("generated graph rejected by Check (skipped)", 1)
 			c.Count(fmt.Sprintf("skipped: check code %d", built.check.Code), 1)
@@ -184,7 +199,8 @@ func c03Compare(c *mon.Ctx, s *model.Schema, sp lib.Spec, built *builtSchema, v 
 	}
 	fresh := lib.Validate(sp, doc)
 	if fresh.Verdict() == want.String() {
-		c.Inconclusive("verdict differed on a reused schema object but not on a fresh one (C11 territory)")
+		c.Violate("validate-reused", c03Case{sp, doc}, want.String(), obs.String(),
+			fmt.Sprintf("Validate verdict on a schema object used before differs from the union/inheritance oracle, a fresh object agrees (%s; oracle: %s)", class, o.Why))
 		return
 	}
 	c.Violate("validate", c03Case{sp, doc}, want.String(), fresh.String(),
@@ -205,10 +221,19 @@ func init() {
 		Units: func(tier string, seed uint64) int { u, _, _ := c03Sizes(tier); return u },
 		Run:   c03Run,
 		Replay: map[string]func(json.RawMessage) string{
+			"validate-reused": func(json.RawMessage) string { return "needs the history of the schema object: not replayable from the case alone" },
 			"validate": func(raw json.RawMessage) string {
 				var cs c03Case
 				json.Unmarshal(raw, &cs)
 				return lib.Validate(cs.Spec, cs.Doc).Verdict()
+			},
+			"nested": func(raw json.RawMessage) string {
+				var cs c03Case
+				json.Unmarshal(raw, &cs)
+				if o := lib.Check(cs.Spec); !o.OK {
+					return o.String()
+				}
+				return "accept (as with all types added to the root)"
 			},
 			"vpanic": func(raw json.RawMessage) string {
 				var cs c03Case
